@@ -51,7 +51,7 @@ func init() {
 		"thorough": append(append([]Step{}, callThorough...), Step{Tier: "illformed", Bound: 1, Bound2: true}),
 	}
 	Plans["C06"] = map[string][]Step{
-		"quick":    append(append([]Step{}, callQuick...), Step{Tier: "malformed", Bound: 0}, Step{Tier: "fails3x2", Bound: 0}, Step{Tier: "redef", Size: 0, Bound: 0}),
+		"quick":    append(append([]Step{}, callQuick...), Step{Tier: "malformed", Bound: 0}, Step{Tier: "fails3x2", Bound: 0}, Step{Tier: "redef", Size: 0, Bound: 0}, Step{Tier: "redef", Size: 1, Bound: 0}),
 		"thorough": append(append([]Step{}, callThorough...), Step{Tier: "malformed", Bound: 1}, Step{Tier: "fails3x3", Bound: 0}, Step{Tier: "failsM3x2", Bound: 0}, Step{Tier: "exact", Size: 0, Bound: 0}, Step{Tier: "redef", Size: 1, Bound: 0}, Step{Tier: "redef", Size: 0, Bound: 1}),
 	}
 	Plans["C03"] = map[string][]Step{
